@@ -254,6 +254,10 @@ pub fn generate(sink: &mut Sink, rng: &mut Rng, n: u64) {
             parts.insert(pos, (*rng.pick(JUNK)).to_string());
         }
         let src = if rng.chance(1, 8) { parts.join("; ") } else { parts.join("\n") };
+        if crate::typed::risky_alloc(&src) {
+            sink.count("c34:skipped_huge_repeat");
+            continue;
+        }
         if vrlrun::compile(&src).is_err() {
             sink.count("c34:rejected_by_compiler");
             continue;
